@@ -616,7 +616,13 @@ class Engine(ExprMixin, StmtMixin):
                 obj = st.heap[self_val.oid]
                 if fld in obj.fields:
                     obj.fields[fld] = self.havoc_value(obj.fields[fld], st, f"{fld}@call")
-            for g in c.get("modifies_ghost", []):
+            # ghost frame of a modular call: the callee may change every ghost variable its own contract declares (its ensures then say
+            # what they are afterwards); assuming post-conditions about unchanged ghost state would contradict the caller's knowledge
+            # of the pre-state and silently exclude the very cases the callee acts on. `modifies_ghost` narrows the frame explicitly.
+            frame = c.get("modifies_ghost")
+            if frame is None:
+                frame = [g for g in c.get("ghost", {}) if g != "g_gridver" and g != "g_btver"]
+            for g in frame:
                 if g in st.ghost:
                     st.ghost[g] = self.havoc_value(st.ghost[g], st, f"{g}@call")
             for pname in c.get("modifies_grid", []):
